@@ -32,6 +32,9 @@ type ReadFault struct {
 	WithData bool   `json:"with_data"`
 	Kind     string `json:"kind"`
 	Err      error  `json:"-"`
+	// Once: the reader fails a single time at At and works again afterwards
+	// (a transient fault); otherwise it keeps failing.
+	Once bool `json:"once,omitempty"`
 }
 
 // SimReader delivers Doc according to Plan.
@@ -64,6 +67,9 @@ func (r *SimReader) Read(p []byte) (int, error) {
 	}
 	end := len(r.Doc)
 	f := r.Plan.Fault
+	if f != nil && f.Once && r.Fired {
+		f = nil // transient fault already delivered
+	}
 	if f != nil && f.At < end {
 		end = f.At
 	}
@@ -133,6 +139,8 @@ type WriteFault struct {
 	Short bool   `json:"short"`
 	Kind  string `json:"kind"`
 	Err   error  `json:"-"`
+	// Once: a single Write call fails (transient), later calls are accepted.
+	Once bool `json:"once,omitempty"`
 }
 
 // SimWriter accepts bytes until its fault strikes.
@@ -148,7 +156,7 @@ func (w *SimWriter) Write(p []byte) (int, error) {
 	w.Writes++
 	w.Sizes = append(w.Sizes, len(p))
 	f := w.Fault
-	if f == nil {
+	if f == nil || (f.Once && w.Fired) {
 		w.Buf = append(w.Buf, p...)
 		return len(p), nil
 	}
